@@ -168,6 +168,10 @@ pub enum Case {
         /// open with sort:true; the stream order is then observed through an unfiltered reference stream
         #[serde(default)]
         sorted: bool,
+        /// open with collect:one_pass_streams: streams are created while the session is still paused, then resumed;
+        /// the server drains messages every stream has seen
+        #[serde(default)]
+        one_pass: bool,
     },
 }
 
@@ -254,17 +258,21 @@ fn run_lib(trace: &[TMsg], query: bool, filters: &[String], window: (usize, usiz
     Ok(())
 }
 
-fn server_cmds(trace_len: usize, streams: &[StreamSpec], early_wait: usize, sorted: bool) -> (Vec<Cmd>, Vec<(usize, usize)>) {
+fn server_cmds(trace_len: usize, streams: &[StreamSpec], early_wait: usize, sorted: bool, one_pass: bool) -> (Vec<Cmd>, Vec<(usize, usize)>) {
     // returns commands and, per command index, (stream no, role) bookkeeping is recomputed in the checker
-    let mut cmds = vec![Cmd::Open { variant: 0, sort: sorted, collect: "true".into() }];
+    let mut cmds = vec![Cmd::Open { variant: 0, sort: sorted, collect: if one_pass { "\"one_pass_streams\"".into() } else { "true".into() } }];
     let mut map = vec![(usize::MAX, 0)];
     for (si, s) in streams.iter().enumerate() {
         if si == 1 && early_wait > 0 {
             cmds.push(Cmd::Wait(early_wait));
             map.push((usize::MAX, 0));
         }
-        cmds.push(Cmd::Stream { query: s.query, body: format!(r#"{{"window":[{},{}],"binary":{},"filters":{}}}"#, s.window.0, s.window.1, s.binary, filters_json(&s.filters)) });
+        cmds.push(Cmd::Stream { query: s.query, body: format!(r#"{{"window":[{},{}],"binary":{},"filters":{}{}}}"#, s.window.0, s.window.1, s.binary, filters_json(&s.filters), if one_pass { ",\"one_pass\":true" } else { "" }) });
         map.push((si, 1));
+    }
+    if one_pass {
+        cmds.push(Cmd::Resume);
+        map.push((usize::MAX, 0));
     }
     cmds.push(Cmd::WaitParsed);
     map.push((usize::MAX, 0));
@@ -272,14 +280,26 @@ fn server_cmds(trace_len: usize, streams: &[StreamSpec], early_wait: usize, sort
     (cmds, map)
 }
 
-fn run_server(trace: &[TMsg], streams_in: &[StreamSpec], early_wait: usize, sched: &SchedCfg, server_max_read: usize, sorted: bool, ctx: &mut Ctx) -> Result<(), Violation> {
+fn run_server(trace: &[TMsg], streams_in: &[StreamSpec], early_wait: usize, sched: &SchedCfg, server_max_read: usize, sorted: bool, one_pass: bool, ctx: &mut Ctx) -> Result<(), Violation> {
     let msgs = to_dlts(trace, 0);
     // sorted sessions: stream #0 is an unfiltered reference stream over everything; it shows the stream order
     let mut streams_v: Vec<StreamSpec> = vec![];
     if sorted {
         streams_v.push(StreamSpec { query: false, filters: vec![], window: (0, msgs.len() + 10), binary: true, changes: vec![], search: None, lookups: vec![], time_lookups: vec![] });
     }
-    streams_v.extend(streams_in.iter().cloned());
+    streams_v.extend(streams_in.iter().cloned().map(|mut s| {
+        if one_pass {
+            // one_pass streams only support stop
+            s.changes.clear();
+            s.search = None;
+            s.lookups.clear();
+            s.time_lookups.clear();
+        }
+        s
+    }));
+    if one_pass {
+        ctx.probe("one_pass_sessions");
+    }
     let streams = &streams_v[..];
     // the lookups' own notion of a message's time: start of its lifecycle + timestamp (final table)
     let m_time: Vec<u64> = if streams.iter().any(|s| !s.time_lookups.is_empty()) {
@@ -301,7 +321,7 @@ fn run_server(trace: &[TMsg], streams_in: &[StreamSpec], early_wait: usize, sche
     }
     ctx.sig.u64(sched.seed ^ sorted as u64);
     // ---- build the command script; stream k of the session gets the k-th announced id
-    let (mut cmds, _) = server_cmds(msgs.len(), streams, early_wait, sorted);
+    let (mut cmds, _) = server_cmds(msgs.len(), streams, early_wait, sorted, one_pass);
     // after everything is parsed: window changes, searches, lookups (ids: Known(n) indexes the announced ids)
     // announced ids in order: one per created stream (if ok), then one per window change
     let mut known_n = streams.len();
@@ -663,7 +683,8 @@ impl Check for C16 {
             let mut sched = SchedCfg::gen(&mut rng.sub("sched"));
             sched.max_steps = 8_000_000;
             let sorted = k.chance(2, 5);
-            Case::Server { trace, streams, early_wait: *k.pick(&[0usize, 0, 5, 50, 400]), sched, server_max_read: *k.pick(&[0usize, 0, 7, 100]), sorted }
+            let one_pass = k.chance(1, 4);
+            Case::Server { trace, streams, early_wait: *k.pick(&[0usize, 0, 5, 50, 400]), sched, server_max_read: *k.pick(&[0usize, 0, 7, 100]), sorted, one_pass }
         }
     }
     fn run(c: &Case, ctx: &mut Ctx) -> Result<(), Violation> {
@@ -673,10 +694,10 @@ impl Check for C16 {
                 ctx.probe("library_level_runs");
                 run_lib(trace, *query, filters, *window, batches, *chunk, window_growth, ctx)
             }
-            Case::Server { trace, streams, early_wait, sched, server_max_read, sorted } => {
+            Case::Server { trace, streams, early_wait, sched, server_max_read, sorted, one_pass } => {
                 ctx.sig.u64(2);
                 ctx.probe("server_level_runs");
-                run_server(trace, streams, *early_wait, sched, *server_max_read, *sorted, ctx)
+                run_server(trace, streams, *early_wait, sched, *server_max_read, *sorted, *one_pass, ctx)
             }
         }
     }
@@ -698,8 +719,8 @@ impl Check for C16 {
                     out.push(Case::Lib { trace: trace.clone(), query: *query, filters: filters.clone(), window: *window, batches: batches.clone(), chunk: *chunk, window_growth: vec![] });
                 }
             }
-            Case::Server { trace, streams, early_wait, sched, server_max_read, sorted } => {
-                let mk = |trace: Vec<TMsg>, streams: Vec<StreamSpec>, sched: SchedCfg| Case::Server { trace, streams, early_wait: *early_wait, sched, server_max_read: *server_max_read, sorted: *sorted };
+            Case::Server { trace, streams, early_wait, sched, server_max_read, sorted, one_pass } => {
+                let mk = |trace: Vec<TMsg>, streams: Vec<StreamSpec>, sched: SchedCfg| Case::Server { trace, streams, early_wait: *early_wait, sched, server_max_read: *server_max_read, sorted: *sorted, one_pass: *one_pass };
                 for t in shrink_vec(trace) {
                     if !t.is_empty() {
                         out.push(mk(t, streams.clone(), sched.clone()));
@@ -749,7 +770,7 @@ impl Check for C16 {
         }
     }
     fn rule() -> &'static str {
-        "two kinds of runs: (lib) a simulated log (<= 300 messages), a generated filter set, stream or query with a window; StreamContext::from + process_stream_new_msgs are driven exactly like the server loop drives them with arbitrary arrival batchings (0..n new messages per call), chunk sizes {1,2,7,64,3M} and window growth between calls; after EVERY call filtered positions == matching positions below the processed length, nothing beyond the window for queries, processed <= available, and bounded progress once arrivals stop; (server) one websocket session (as C15) with 1-3 streams/queries with restricted filters (independent reference predicate), windows (empty, beyond the end, overlapping), binary and text streams, later window changes, paged searches with all page sizes and start positions, index lookups, time lookups (at/around the calculated time of a chosen message); two in five sessions open the file with sort:true - the stream order is then whatever an additional unfiltered reference stream delivered (required to be a permutation of the file) and every filtered window, search and lookup is judged against that order; frames per announced id compared with the model's filtered sequence; non-trivial = the filter set keeps some and drops some messages; distinct = hash of the case"
+        "two kinds of runs: (lib) a simulated log (<= 300 messages), a generated filter set, stream or query with a window; StreamContext::from + process_stream_new_msgs are driven exactly like the server loop drives them with arbitrary arrival batchings (0..n new messages per call), chunk sizes {1,2,7,64,3M} and window growth between calls; after EVERY call filtered positions == matching positions below the processed length, nothing beyond the window for queries, processed <= available, and bounded progress once arrivals stop; (server) one websocket session (as C15) with 1-3 streams/queries with restricted filters (independent reference predicate), windows (empty, beyond the end, overlapping), binary and text streams, later window changes, paged searches with all page sizes and start positions, index lookups, time lookups (at/around the calculated time of a chosen message); one session in four opens with collect:one_pass_streams (streams with one_pass:true created while paused, then resume; the server drains what every stream has seen); two in five sessions open the file with sort:true - the stream order is then whatever an additional unfiltered reference stream delivered (required to be a permutation of the file) and every filtered window, search and lookup is judged against that order; frames per announced id compared with the model's filtered sequence; non-trivial = the filter set keeps some and drops some messages; distinct = hash of the case"
     }
     fn assumptions() -> Vec<&'static str> {
         vec![
@@ -766,6 +787,6 @@ impl Check for C16 {
         vec!["connection loop replica (H2)", "in-memory transport, simulated clock", "client + model"]
     }
     fn required_reach() -> Vec<&'static str> {
-        vec!["library_level_runs", "server_level_runs", "window_changed_between_calls", "window_changes_checked", "searches_checked", "lookups_checked", "time_lookups_checked", "sorted_sessions", "sorted_sessions_order_differs_from_file", "stream_messages_compared"]
+        vec!["library_level_runs", "server_level_runs", "window_changed_between_calls", "window_changes_checked", "searches_checked", "lookups_checked", "time_lookups_checked", "sorted_sessions", "sorted_sessions_order_differs_from_file", "one_pass_sessions", "stream_messages_compared"]
     }
 }
